@@ -84,7 +84,7 @@ func init() {
 			for i, site := range p.Callers(cf) {
 				c.check(site.Parent() == ef, fmt.Sprintf("callFunc caller#%d", i+1), p.instrPos(site), "called from evalFilter", "callFunc is called from "+shortName(site.Parent())+": errors of that call are not wrapped with the function's name")
 			}
-			seg := ef.Params[2]
+			seg := paramOf(ef, "seg", 2, 6)
 			n := 0
 			// (merged into the segment evaluator: only the errors of the filter part — after the registry lookup)
 			var lookup ssa.Instruction
@@ -157,7 +157,7 @@ func init() {
 				undecided("anchor function (*vuego.Vue).evalFilter not found, nor a former caller of the same shape")
 			}
 			ef := efs[0]
-			input := ef.Params[3]
+			input := paramOf(ef, "input", 3, 6)
 			var first, rest []ssa.Instruction
 			for _, site := range callsIn(ef) {
 				if calleeName(site.Common()) != "builtin.append" {
